@@ -91,6 +91,7 @@ static size_t key_bytes(char *buf, int key) {
 static uint32_t vlen_of(uint64_t vid) {
   uint64_t h = vid * 0x9e3779b97f4a7c15ULL;
   h ^= h >> 29;
+  if (vid & 2) return 30000 + (uint32_t)(h % 30000);     /* member of a big batch (> 128 KiB in total) */
   if (variant == V_STALL || variant == V_L0STOP) return 2000 + (uint32_t)(h % 12000);
   if ((h % 1000) < 800) return 8 + (uint32_t)((h >> 10) % 300);
   if ((h % 1000) < 960) return 1000 + (uint32_t)((h >> 10) % 6000);
@@ -101,6 +102,7 @@ static uint32_t vlen_of(uint64_t vid) {
 static uint64_t make_vid(int writer, int b, int key) {
   return (((uint64_t)(writer + 1) << 40) | ((uint64_t)b << 16) | ((uint64_t)key << 4) | 1);
 }
+#define VID_BIG 2
 static int vid_writer(uint64_t v) { return (int)(v >> 40) - 1; }
 static int vid_batch(uint64_t v) { return (int)((v >> 16) & 0xffffff); }
 static int vid_key(uint64_t v) { return (int)((v >> 4) & 0xfff); }
@@ -317,17 +319,21 @@ static void gen_scenario(vrng_t *r) {
     for (j = 0; j < t->nops; j++) {
       wop_t *w = &t->w[j];
       int nk = variant == V_GROUP ? 1 + (int)vr_uniform(r, 2) : 1 + (int)vr_uniform(r, KPW), u, used[KPW] = {0};
+      /* now and then a batch far above the 128 KiB group-size threshold, queued among small ones */
+      int big = (variant == V_GROUP || variant == V_MIXED) && vr_chance(r, 90);
+      if (big) nk = KPW;
       w->b = j + 1;
       w->sync = vr_chance(r, variant == V_GROUP ? 400 : 150);
       for (u = 0; u < nk; u++) {
-        int kk = (int)vr_uniform(r, variant == V_GROUP ? 2 : KPW);
+        int kk = big ? u : (int)vr_uniform(r, variant == V_GROUP ? 2 : KPW);
         if (used[kk]) continue;
         used[kk] = 1;
         w->upd[w->nupd].key = i * KPW + kk;
-        w->upd[w->nupd].del = vr_chance(r, 180);
-        w->upd[w->nupd].vid = w->upd[w->nupd].del ? 0 : make_vid(i, w->b, i * KPW + kk);
+        w->upd[w->nupd].del = !big && vr_chance(r, 180);
+        w->upd[w->nupd].vid = w->upd[w->nupd].del ? 0 : (make_vid(i, w->b, i * KPW + kk) | (big ? VID_BIG : 0));
         w->nupd++;
       }
+      if (big) vh_count("big_batches_generated", 1);
       if (vr_chance(r, 250)) {
         int sk = MAXW * KPW + (int)vr_uniform(r, NSHARED);
         w->upd[w->nupd].key = sk;
@@ -708,7 +714,7 @@ static int run_schedule(int s, const char *base) {
   }
   expect_errors = (variant == V_BGERROR);
   gen_scenario(&r);
-  for (i = 0; i < NW + NR + 1; i++) vbuf_tls[i] = malloc(40000);
+  for (i = 0; i < NW + NR + 1; i++) vbuf_tls[i] = malloc(70000);
 
   cfg_default(&c);
   c.write_buffer_size = 64 << 10;
